@@ -666,6 +666,17 @@ def main(tier, seed):
             rep.add_part('opstate-cc%s' % ccache, p,
                          bounds={'operations': n2, 'max_length': maxlen2, 'histories': len(hists2), 'compiled_cache': ccache,
                                  'pool': 'messages that end or fail with operator state in force, then plain messages'})
+        # the compiled-template cache at sizes 2 and 3 (smaller than the number of templates): every order of 5 (6) decodes of
+        # four messages with four different templates under one table group -- hits, misses and evictions in every
+        # interleaving; each decode must give what the message gives in a fresh process
+        names2 = [o[0] for o in ops2()]
+        four = [names2.index('D:' + n_) for n_ in ('P', 'O201', 'O207', 'S203')]
+        olen = 5 if tier == 'quick' else 6
+        orders = [h for h in itertools.product(four, repeat=olen)]
+        p = merge_all(run_shards(run_histories, [(root, s_, [(3, 2), (3, 3)], gold_o, 'opstate') for s_ in split(orders, 64)]))
+        rep.add_part('compiled-cache-orders', p, bounds={'messages': ['P', 'O201', 'O207', 'S203'], 'length': olen, 'orders': len(orders),
+                                                         'compiled_cache': [2, 3]},
+                     rule='every order of decodes of four different templates on one decoder whose compiled-template cache holds 2 / 3')
         gold_f = goldens(root, 'failures')
         if gold_f != goldens(root, 'failures'):
             print('HARNESS-ERROR property=C13 golden observations (failure pool) differ between two fresh processes')
